@@ -153,14 +153,38 @@ const NV = 12
 
 var vertices [NV]s2.LatLng
 
-func init() {
-	const lat0, lng0 = 51.5300000, -0.1200000
+var frameName string
+
+// FrameName is the frame set last.
+func FrameName() string { return frameName }
+
+func init() { SetFrame("") }
+
+// SetFrame places the polygon: "" / "london" (the default), "antimeridian" (the vertices straddle longitude 180,
+// longitudes wrap) or "origin" (around 0,0, with vertex 4 EXACTLY latitude 0, longitude 0 - the zero LatLng).
+func SetFrame(name string) {
+	frameName = name
 	const r = 0.0009
+	lat0, lng0 := 51.5300000, -0.1200000
+	switch name {
+	case "antimeridian":
+		lat0, lng0 = -17.8000000, 180.0000000
+	case "origin":
+		// vertex 4 is exactly latitude 0, longitude 0 (the zero value of s2.LatLng)
+		th := 2 * math.Pi * 4 / NV
+		lat0, lng0 = -r*math.Sin(th), -r*1.6*math.Cos(th)
+	}
 	for i := 0; i < NV; i++ {
 		th := 2 * math.Pi * float64(i) / NV
 		lat := math.Round((lat0+r*math.Sin(th))*1e7) / 1e7
 		lng := math.Round((lng0+r*1.6*math.Cos(th))*1e7) / 1e7
+		if lng > 180 {
+			lng = math.Round((lng-360)*1e7) / 1e7
+		}
 		vertices[i] = s2.LatLngFromDegrees(lat, lng)
+	}
+	if name == "origin" {
+		vertices[4] = s2.LatLngFromDegrees(0, 0)
 	}
 }
 
